@@ -142,9 +142,38 @@ def job_ctor_domain(reps):
 
 
 def item_step_block():
+    """body of the item loop of encoding 1's `_decode` plus the NAMES of its variables by role, read from the working tree's source
+    (parameters by position; loop index / item from the `for` target; current bin id from the `return`; first row of the current
+    bin = the other loop-carried local), so that renaming locals does not matter"""
     import ast
     import moptipyapps.binpacking2d.encodings.ibl_encoding_1 as e1
-    return xform.extract_block(e1._decode, lambda fd: [st for st in xform.body_wo_doc(fd) if isinstance(st, ast.For)][0].body, name="item_step")
+    fd, _ = xform.parse_fn(e1._decode)
+    params = [a.arg for a in fd.args.args]
+    body = xform.body_wo_doc(fd)
+    loops = [st for st in body if isinstance(st, ast.For)]
+    if len(params) != 5 or len(loops) != 1 or not isinstance(body[-1], ast.Return):
+        raise core.StructureMismatch("ibl_encoding_1._decode: expected (x, y, instance, bin_width, bin_height), one item loop and a return")
+    loop = loops[0]
+    ret = [n.id for n in ast.walk(body[-1]) if isinstance(n, ast.Name) and n.id != "int"]
+    pre = set()
+    for st in body[:body.index(loop)]:
+        if isinstance(st, (ast.Assign, ast.AugAssign)) or (isinstance(st, ast.AnnAssign) and st.value is not None):
+            pre |= {n.id for n in ast.walk(st) if isinstance(n, ast.Name) and isinstance(n.ctx, ast.Store)}
+    loaded = {n.id for st in loop.body for n in ast.walk(st) if isinstance(n, ast.Name) and isinstance(n.ctx, ast.Load)}
+    carried = sorted((pre & loaded) - set(params))
+    if len(ret) != 1 or ret[0] not in carried or len(carried) != 2:
+        raise core.StructureMismatch(f"ibl_encoding_1._decode: loop-carried locals {carried}, returned {ret}")
+    r = dict(x=params[0], y=params[1], instance=params[2], bin_width=params[3], bin_height=params[4], bin_id=ret[0],
+             bin_start=[c for c in carried if c != ret[0]][0])
+    tg = loop.target
+    if isinstance(tg, ast.Tuple) and len(tg.elts) == 2 and all(isinstance(e, ast.Name) for e in tg.elts) and "enumerate" in ast.unparse(loop.iter):
+        r["i"], r["item"] = tg.elts[0].id, tg.elts[1].id
+    elif isinstance(tg, ast.Name) and "range" in ast.unparse(loop.iter):
+        r["i"], r["item"] = tg.id, None          # the body reads x[i] itself
+    else:
+        raise core.StructureMismatch(f"ibl_encoding_1._decode: item loop header {ast.unparse(loop.target)} in {ast.unparse(loop.iter)}")
+    blk = xform.extract_block(e1._decode, lambda d: [st for st in xform.body_wo_doc(d) if isinstance(st, ast.For)][0].body, name="item_step")
+    return blk, r
 
 
 def job_item_step(K, with_reference=False, timeout_s=1800):
@@ -153,7 +182,7 @@ def job_item_step(K, with_reference=False, timeout_s=1800):
     item in the current bin, or the first box of a new bin; bookkeeping (bin_id, bin_start) stays consistent.  With
     with_reference (C14) the position must be the one the documented rule prescribes for that bin."""
     from . import ibl_reference as R
-    step = item_step_block()
+    step, RL = item_step_block()
     ref_place = xform.transform(R.ref_place, core.install_builtins(), {}, also=("ref_descent", "ref_left")) if with_reference else None
 
     def h(eng):
@@ -178,12 +207,15 @@ def job_item_step(K, with_reference=False, timeout_s=1800):
         item_id = fresh_int("item")
         eng.assume(z3.Or(item_id.e == 1, item_id.e == -1))
         pre_rows = [[mk(v) for v in X[i]] for i in range(K)]
-        out = xform.call_block(step, bin_height=H, bin_width=W, bin_id=bin_id, bin_start=0, i=K, instance=inst, item_id=item_id, y=y,
-                               h=0, w=0, use_id=0, x=None)
+        kw = {RL["bin_height"]: H, RL["bin_width"]: W, RL["bin_id"]: bin_id, RL["bin_start"]: 0, RL["i"]: K, RL["instance"]: inst, RL["y"]: y}
+        if RL["item"] is not None:
+            kw[RL["item"]] = item_id
+        kw[RL["x"]] = core.SymArray([0] * K + [item_id], (K + 1,), name="x")      # for bodies that read x[i] themselves
+        out = xform.call_block(step, **kw)
         eng.pending = [(l_, c) for l_, c in eng.pending if l_.startswith("index in range")]
         eng.flush()
         idd, b, l, bt, r, t = [lift(y[K, k]) for k in range(6)]
-        nb, nbs = lift(out["bin_id"]), lift(out["bin_start"])
+        nb, nbs = lift(out[RL["bin_id"]]), lift(out[RL["bin_start"]])
         same = z3.And(b == bin_id.e, nb == bin_id.e, nbs == 0)
         newb = z3.And(b == bin_id.e + 1, nb == bin_id.e + 1, nbs == K, l == 0, bt == 0)
         post = [idd == 1, l >= 0, bt >= 0, r <= W.e, t <= H.e,
